@@ -501,13 +501,13 @@ def loops_over(f, field):
         # index style: body subscripts field with the loop variable
         uses = False
         for e in f.events('call'):
-            if e.get('op') == '[]' and _plain_field(e.get('recv'), field) and \
+            if e.get('op') == '[]' and _plain_field(_resolve_local(f, e.get('recv')), field) and \
                     any(mentions_var(a, var) for a in e.get('args', [])):
                 uses = True
         if uses:
             info['style'] = 'index'
             full = isinstance(rr, dict) and rr.get('k') == 'call' and \
-                lastname(rr.get('name')) == 'size' and _plain_field(rr.get('recv'), field) \
+                lastname(rr.get('name')) == 'size' and _plain_field(_resolve_local(f, rr.get('recv')), field) \
                 and op in ('<', '!=') and init is not None and const_value(init) == 0
             info['full'] = bool(full)
             out.append(info)
@@ -884,3 +884,83 @@ def answer_sites(f):
         else:
             out.append((e, v))
     return out
+
+
+# ---- "this condition is enough": implication through flags, composites and helper predicates ---------------------
+
+def _subst_params(d, mapping):
+    if isinstance(d, list):
+        return [_subst_params(x, mapping) for x in d]
+    if not isinstance(d, dict):
+        return d
+    if d.get('k') == 'var' and d.get('vk') == 'param' and d.get('n') in mapping:
+        return mapping[d['n']]
+    return {k: (_subst_params(v, mapping) if isinstance(v, (dict, list)) else v) for k, v in d.items()}
+
+
+def justified(prog, f, atom, pol, base, mapping=None, depth=0, seen=None):
+    """Does `atom` having truth value `pol` (in function f) imply a condition base accepts?
+    base(fn, atom, pol) decides leaves (atoms are given with the parameters of helper predicates replaced by the
+    caller's arguments).  Looked through:
+      - `a && b` / `a || b` (either value: one conjunct of a true conjunction is enough, every disjunct of a false one is needed);
+      - a local flag: every definition that can give it that value is a constant placed under a justified guard, or
+        an expression that is itself justified for that value;
+      - a call of a function defined in the program: every return that can give that value is justified likewise."""
+    if depth > 8:
+        return False
+    seen = seen or frozenset()
+    mapping = mapping or {}
+    a, p0 = norm_cond(prog, atom)
+    if not p0:
+        pol = not pol
+    a = strip(a)
+    if not isinstance(a, dict):
+        return False
+    shown = _subst_params(a, mapping) if mapping else a
+    if base(f, shown, pol):
+        return True
+    k = a.get('k')
+    if k == 'bin' and a.get('op') in ('&&', '||'):
+        parts = [a['l'], a['r']]
+        if (a['op'] == '&&') == pol:
+            return any(justified(prog, f, x, pol, base, mapping, depth + 1, seen) for x in parts)
+        return all(justified(prog, f, x, pol, base, mapping, depth + 1, seen) for x in parts)
+
+    def site_ok(g, ev, mp):
+        for key, (fp, fa) in g.facts_at(ev).items():
+            if justified(prog, g, fa, fp, base, mp, depth + 1, seen):
+                return True
+        return False
+
+    def value_ok(g, ev, rhs, mp):
+        cv = const_value(rhs)
+        if cv is not None:
+            return (cv != 0) != pol or site_ok(g, ev, mp)
+        return justified(prog, g, rhs, pol, base, mp, depth + 1, seen) or site_ok(g, ev, mp)
+
+    if k == 'var' and a.get('vk') == 'local':
+        key = (f.id, a['n'])
+        if key in seen:
+            return False
+        seen = seen | {key}
+        defs = []
+        for e in f.events():
+            if ('var', a['n']) in _written_names(f, e):
+                if e['k'] == 'decl' and e.get('init') is not None:
+                    defs.append((e, e['init']))
+                elif e['k'] == 'asg' and e.get('op') == '=' and strip(e['l']).get('k') == 'var':
+                    defs.append((e, e.get('r')))
+                else:
+                    return False        # written in a way that is not followed
+        return bool(defs) and all(value_ok(f, e, r, mapping) for e, r in defs)
+    if k == 'call' and a.get('fn') in prog.functions:
+        g = prog.functions[a['fn']]
+        key = (g.id, '')
+        if key in seen or g.retk != 'bool':
+            return False
+        seen = seen | {key}
+        args = [deep_resolve(f, _subst_params(x, mapping)) for x in (a.get('args') or [])]
+        mp = {p['n']: args[i] for i, p in enumerate(g.params) if i < len(args)}
+        rets = [e for e in g.events('ret')]
+        return bool(rets) and all(value_ok(g, e, e.get('e'), mp) for e in rets)
+    return False
